@@ -35,16 +35,21 @@ def isScalar : W.JDoc → Bool
   | .arr _ _ => false
   | _ => true
 
+/-- `ScalarOK` is the lemma file's `C14.SOK` (same clauses) -/
+theorem scalarOK_iff (d : W.JDoc) : ScalarOK d ↔ C14.SOK d := by
+  cases d <;> exact Iff.rfl
+
 /-- the variable-length size prefix round-trips for every size a MySQL value can have -/
 theorem C14_varlen (pre rest : Bytes) (n : Nat) (hn : n < 2 ^ 32) :
-    readVariableLength (pre ++ (W.varlen n ++ rest)) pre.length = .ok (n, pre.length + (W.varlen n).length) := by
-  sorry
+    readVariableLength (pre ++ (W.varlen n ++ rest)) pre.length = .ok (n, pre.length + (W.varlen n).length) :=
+  C14.readVariableLength_varlen pre rest n hn
 
 /-- every scalar document (literals, integers of every width, doubles, strings, opaque date / time / datetime /
     decimal — both signs of TIME) decodes to its text, as a whole column value -/
 theorem C14_scalars (E : Ext) (d : W.JDoc) (hs : isScalar d = true) (hok : ScalarOK d) :
     printJSONData E (W.jsonb d) = .ok (W.render E.fmtFloat64E true d) := by
-  sorry
+  have _ := hs   -- implied by `ScalarOK` (containers are excluded there)
+  exact C14.scalar_doc E d ((scalarOK_iff d).mp hok)
 
 /-- well-formed documents: scalars in range; every container's count, size and offsets fit its storage format
     (2-byte fields for small, 4-byte for large), keys shorter than 64KB -/
@@ -64,6 +69,46 @@ def WFKVs : List (Bytes × W.JDoc) → Prop
   | (k, d) :: rest => k.length < 65536 ∧ WFDoc d ∧ WFKVs rest
 end
 
+theorem wfVals_mem (vs : List W.JDoc) (h : WFVals vs) : ∀ v ∈ vs, WFDoc v := by
+  induction vs with
+  | nil => simp
+  | cons d ds ih =>
+    simp only [WFVals] at h
+    intro v hv
+    simp only [List.mem_cons] at hv
+    rcases hv with rfl | hv
+    · exact h.1
+    · exact ih h.2 v hv
+
+theorem wfKVs_mem (kvs : List (Bytes × W.JDoc)) (h : WFKVs kvs) : ∀ p ∈ kvs, p.1.length < 65536 ∧ WFDoc p.2 := by
+  induction kvs with
+  | nil => simp
+  | cons p ps ih =>
+    obtain ⟨k, d⟩ := p
+    simp only [WFKVs] at h
+    intro v hv
+    simp only [List.mem_cons] at hv
+    rcases hv with rfl | hv
+    · exact ⟨h.1, h.2.1⟩
+    · exact ih h.2.2 v hv
+
+/-- `WFDoc` provides what the induction in the lemma file needs -/
+theorem wfDoc_spec : C14.WFSpec WFDoc where
+  obj := by
+    intro large kvs h
+    simp only [WFDoc, fitsFormat] at h
+    exact ⟨wfKVs_mem kvs h.1, h.2⟩
+  arr := by
+    intro large vs h
+    simp only [WFDoc, fitsFormat] at h
+    exact ⟨wfVals_mem vs h.1, h.2⟩
+  scalar := by
+    intro d h ho ha
+    cases d with
+    | obj l kvs => exact absurd rfl (ho l kvs)
+    | arr l vs => exact absurd rfl (ha l vs)
+    | _ => exact (scalarOK_iff _).mp (by simpa only [WFDoc] using h)
+
 /-- containers whose children are all scalars, any fan-out, both storage formats, inlined and out-of-line values -/
 theorem C14_doc_flat (E : Ext) (d : W.JDoc) (hw : WFDoc d)
     (hflat : match d with
@@ -71,22 +116,23 @@ theorem C14_doc_flat (E : Ext) (d : W.JDoc) (hw : WFDoc d)
       | .arr _ vs => ∀ v ∈ vs, isScalar v = true
       | _ => True) :
     printJSONData E (W.jsonb d) = .ok (W.render E.fmtFloat64E true d) := by
-  sorry
+  have _ := hflat   -- not needed: the general theorem `C14_doc` below covers every nesting depth
+  exact C14.doc_data wfDoc_spec E d hw
 
 /-- every well-formed document, at any nesting depth -/
 theorem C14_doc (E : Ext) (d : W.JDoc) (hw : WFDoc d) :
-    printJSONData E (W.jsonb d) = .ok (W.render E.fmtFloat64E true d) := by
-  sorry
+    printJSONData E (W.jsonb d) = .ok (W.render E.fmtFloat64E true d) :=
+  C14.doc_data wfDoc_spec E d hw
 
 /-- and through the cell decoder: a JSON column cell (4 length bytes) decodes to the same text and consumes itself -/
 theorem C14_cell (E : Ext) (d : W.JDoc) (hw : WFDoc d) (hl : (W.jsonb d).length < 2 ^ 32) (u : Bool) (rest : Bytes) :
     cellBytes E (Bytes.ofLE 4 (W.jsonb d).length ++ W.jsonb d ++ rest) 0 245 4 u
-      = .ok (W.render E.fmtFloat64E true d, 4 + (W.jsonb d).length) := by
-  sorry
+      = .ok (W.render E.fmtFloat64E true d, 4 + (W.jsonb d).length) :=
+  C14.cell_json E (W.jsonb d) rest _ u hl (C14_doc E d hw)
 
 /-! non-vacuity -/
 example : WFDoc (.obj false [([97], .i16 (-1)), ([98, 99], .arr false [.lit 0, .str [97, 98], .u32 70000])]) := by
-  simp [WFDoc, WFKVs, WFVals, ScalarOK, fitsFormat]
-  decide
+  simp [WFDoc, WFKVs, WFVals, ScalarOK, fitsFormat, W.encVal, W.encKVs, W.encKeys, W.encVals, W.assemble,
+    W.assemble.go1, W.assemble.go2, W.inlined, W.ow, C14.varlen_lt 2 (by omega)]
 
 end GV.Props.C14
